@@ -1,0 +1,101 @@
+//go:build verif
+
+package lang
+
+import (
+	"sort"
+	"strings"
+)
+
+// Hooks for the external verification harness (/verif). Only compiled with
+// -tags verif; none of this exists in a normal build.
+
+// VerifStepBudget bounds the number of evalExpr/evalStatement steps of a run
+// (0 = unlimited). VerifSteps is the running count; the harness zeroes it.
+var VerifStepBudget int64
+var VerifSteps int64
+
+func (e *Evaluator) verifStep() error {
+	VerifSteps++
+	if VerifStepBudget > 0 && VerifSteps > VerifStepBudget {
+		return RuntimeError{Message: "verif: step budget exceeded"}
+	}
+	return nil
+}
+
+// VerifParse parses a program and reports how far the lexer got.
+func VerifParse(src string) (error, int) {
+	lex := NewLexer(src)
+	parser := NewParser(&lex)
+	_, err := parser.Parse()
+	return err, lex.pos
+}
+
+// VerifParseExpr does the same for a selector expression.
+func VerifParseExpr(src string) (error, int) {
+	lex := NewLexer(src)
+	parser := NewParser(&lex)
+	_, err := parser.ParseExpression()
+	return err, lex.pos
+}
+
+// VerifFrames describes the frame stack, innermost first: frame name plus the
+// sorted names of its locals.
+func (e *Evaluator) VerifFrames() []string {
+	frames := make([]string, 0)
+	for f := e.stackTop; f != nil; f = f.parent {
+		names := make([]string, 0, len(f.locals))
+		for k := range f.locals {
+			names = append(names, k)
+		}
+		sort.Strings(names)
+		frames = append(frames, f.name+"("+strings.Join(names, ",")+")")
+	}
+	return frames
+}
+
+func verifProtoFingerprint(name string, proto *Value, sb *strings.Builder) {
+	sb.WriteString(name)
+	if proto == nil {
+		sb.WriteString(":unbuilt;")
+		return
+	}
+	sb.WriteString(":{")
+	keys := make([]string, 0, len(*proto.Obj))
+	for k := range *proto.Obj {
+		keys = append(keys, k)
+	}
+	sort.Strings(keys)
+	for _, k := range keys {
+		cell := (*proto.Obj)[k]
+		sb.WriteString(k)
+		sb.WriteString("=")
+		sb.WriteString(cell.Value.Tag.String())
+		if cell.Value.Binding != nil {
+			sb.WriteString("@")
+			sb.WriteString(cell.Value.Binding.Tag.String())
+			sb.WriteString(cell.Value.Binding.PrettyString(true))
+		}
+		sb.WriteString(",")
+	}
+	sb.WriteString("};")
+}
+
+// VerifGlobals is a canonical rendering of the package-level mutable state.
+func VerifGlobals() string {
+	var sb strings.Builder
+	verifProtoFingerprint("array", arrayPrototype, &sb)
+	verifProtoFingerprint("obj", objPrototype, &sb)
+	verifProtoFingerprint("str", strPrototype, &sb)
+	verifProtoFingerprint("num", numPrototype, &sb)
+	return sb.String()
+}
+
+// VerifResetGlobals puts the package-level mutable state back to what it is in
+// a fresh process.
+func VerifResetGlobals() {
+	arrayPrototype = nil
+	objPrototype = nil
+	strPrototype = nil
+	numPrototype = nil
+}
